@@ -20,3 +20,6 @@ open GoguVerif.Theorems.C19
 #print axioms DList.dlist_realises_dseq
 #print axioms DList.f31_unshift_without_relink_loses_element
 #print axioms Clauses.allowed_preserves_others
+#print axioms Clauses.next_allowed
+#print axioms Clauses.allowed_eq_next
+#print axioms Clauses.fillFront_steps
